@@ -1211,3 +1211,134 @@ c16_se_peptides_1 = _mksp('c16_se_peptides_1', CASE_SE, 'SE (exon 2 skipped)', 1
 c16_ri_peptides_0 = _mksp('c16_ri_peptides_0', CASE_RI, 'RI (intron 1 retained)', 0, ('quick', 'thorough'))
 c16_ri_peptides_1 = _mksp('c16_ri_peptides_1', CASE_RI, 'RI (intron 1 retained)', 1, ('quick', 'thorough'))
 c16_ri_peptides_2 = _mksp('c16_ri_peptides_2', CASE_RI, 'RI (intron 1 retained)', 2, ('thorough',))
+
+
+# --------------------------------------------------------------------------
+# C03 / C01: stop-lost read-through - an in-frame deletion across the stop codon plus an SNV in the (open) 3'UTR
+# --------------------------------------------------------------------------
+class _StopLostCase:
+    """CDS M A S T E D L V K A A D E G L V S T K | TAA | 3'UTR G H L R A A D L S G N E F R * (in frame, open).
+    DEL: 3 nt removed across the K codon / stop codon boundary (AATA>A: the stop disappears, K stays);
+    SNV: D>E in the 3'UTR (GAC>GAG).  Read-through peptides after the deletion: GHLR, AADLSGNEFR (AAELSGNEFR with the SNV)."""
+    PROT = 'MASTEDLVKAADEGLVSTK'
+    UTR3P = 'GHLRAADLSGNEFR'
+
+    def __init__(self):
+        import sys
+        from moPepGen import dna, svgraph
+        from mpgverif.harness.annobuild import anno_one_gene
+        import moPepGen.cli.call_variant_peptide  # noqa: F401
+        cvp = sys.modules['moPepGen.cli.call_variant_peptide']
+        self.cds = ''.join(CODON[a] for a in self.PROT)
+        utr3 = ''.join(CODON[a] for a in self.UTR3P) + 'TAAGC'
+        self.tx = UTR5 + self.cds + 'TAA' + utr3
+        cs = len(UTR5)
+        ce = cs + len(self.cds)
+        d = ce - 2                      # anchor = 2nd base of the last codon (AAA); deletes its 3rd base and 'TA' of the stop
+        snv = ce + 3 + 3 * self.UTR3P.index('D') + 2
+        self.vars = [(d, self.tx[d:d + 4], self.tx[d]), (snv, 'C', 'G')]
+        assert self.tx[d:d + 4] == 'AATA' and self.tx[snv] == 'C', (self.tx[d:d + 4], self.tx[snv])
+        # GENCODE convention: the 3'UTR record starts at the stop codon, so the known ORF ends where the stop codon starts
+        anno = anno_one_gene(0, len(self.tx), 1, [(0, len(self.tx))], cds=[(cs, ce)], three_utr=[(ce, len(self.tx))])
+        genome = dna.DNASeqDict({'chr1': dna.DNASeqRecord(Seq(self.tx), id='chr1', name='chr1', description='chr1')})
+        tx_seqs = {'T1': anno.transcripts['T1'].get_transcript_sequence(genome['chr1'])}
+        recs = []
+        self.ids = {}
+        for p, r, a in self.vars:
+            typ = 'SNV' if len(r) == len(a) == 1 else 'INDEL'
+            vid = f'{typ}-{p + 1}-{r}-{a}'
+            self.ids[vid] = (p, r, a)
+            recs.append(VariantRecord(location=FeatureLocation(seqname='T1', start=p, end=p + len(r)), ref=r, alt=a,
+                                      _type=typ, _id=vid, attrs={'GENE_ID': 'G1', 'TRANSCRIPT_ID': 'T1'}))
+        self.ref = {q for q, k in _digest(_translate(self.tx[cs:]))}
+        self.deny = {Seq(q) for q in self.ref}
+        real = svgraph.PeptideVariantGraph.call_variant_peptides
+
+        def capture(pg, **kwargs):
+            raise _Captured(pg, kwargs)
+
+        p = CleavageParams(enzyme='trypsin', miscleavage=2, min_length=1, max_length=100, min_mw=0.)
+        svgraph.PeptideVariantGraph.call_variant_peptides = capture
+        try:
+            cvp.call_peptide_main(tx_id='T1', tx_variants=recs, variant_pool=_Pool(), ref=_Ref(anno, genome),
+                                  tx_seqs=tx_seqs, gene_seqs={}, cleavage_params=p, max_adjacent_as_mnv=2,
+                                  truncate_sec=False, w2f=False, denylist=self.deny, save_graph=False,
+                                  coding_novel_orf=False)
+            raise RuntimeError('call_variant_peptides was not reached')
+        except _Captured as c:
+            _order_sets(c.pgraph)
+            self.graph, self.kwargs = c.pgraph, c.kwargs
+        finally:
+            svgraph.PeptideVariantGraph.call_variant_peptides = real
+        self.cands = set()
+        for n in (1, 2):
+            for sub in itertools.combinations(self.vars, n):
+                self.cands |= _digest(_translate(self._apply(sub)[cs:]))
+        self.cands = {(q, k) for q, k in self.cands if q and q not in self.ref}
+
+    def _apply(self, sub):
+        s = self.tx
+        for p, r, a in sorted(sub, reverse=True):
+            s = s[:p] + a + s[p + len(r):]
+        return s
+
+    def run(self, misc, lo, hi):
+        from crosshair.tracers import NoTracing
+        with NoTracing():
+            pg, kwargs = copy.deepcopy((self.graph, self.kwargs))
+        pg.cleavage_params = CleavageParams(enzyme='trypsin', miscleavage=misc, min_length=lo, max_length=hi, min_mw=0.)
+        return pg.call_variant_peptides(**kwargs)
+
+    def check(self, misc, lo, hi):
+        got = {str(s) for s in self.run(misc, lo, hi)}
+        want = {q for q, k in self.cands if k <= misc and lo <= len(q) <= hi}
+        if want - got:
+            return -1
+        if got - want:
+            return -4
+        return OK
+
+    def headers(self, misc, lo, hi):
+        res = self.run(misc, lo, hi)
+        seen = set()
+        n = 0
+        for seq, labels in res.items():
+            for lab in labels:
+                n += 1
+                if lab.label in seen:
+                    return -4
+                seen.add(lab.label)
+                parts = lab.label.split('|')
+                if parts[0] != 'T1' or not parts[-1].isdigit():
+                    return -1
+                ids = parts[1:-1]
+                if not ids or any(i not in self.ids for i in ids) or len(set(ids)) != len(ids):
+                    return -2
+                s = self._apply([self.ids[i] for i in ids])
+                prods = {q for q, k in _digest(_translate(s[len(UTR5):])) if k <= misc}
+                if str(seq) not in prods:
+                    return -3
+        return OK if n else SKIP
+
+
+CASE_SL = _Lazy(_StopLostCase)
+_BSL = ("ONE concrete transcript (19 codons + an open in-frame 3'UTR, GENCODE convention: the UTR record starts at the stop "
+        'codon) with an in-frame deletion across the stop codon and an SNV in the 3\'UTR; miscleavage = %s, min_length and '
+        'max_length UNBOUNDED symbolic integers')
+
+
+def _mksl(prop, name, what, misc, tiers):
+    def f(lo: int, hi: int) -> int:
+        """
+        pre: 1 <= lo
+        post: _ >= 0
+        """
+        return getattr(CASE_SL, what)(misc, lo, hi)
+    f.__name__ = f.__qualname__ = name
+    return cond(prop, bounds=_BSL % misc, encodes=ENC_SV, stubs=STUBS + ['variant pool -> stand-in without further variants'],
+                codes=CODES_H if what == 'headers' else CODES, timeout=900, tiers=tiers)(f)
+
+
+c03_stop_lost_headers_1 = _mksl('C03', 'c03_stop_lost_headers_1', 'headers', 1, ('quick', 'thorough'))
+c01_stop_lost_traversal_1 = _mksl('C01', 'c01_stop_lost_traversal_1', 'check', 1, ('quick', 'thorough'))
+c03_stop_lost_headers_2 = _mksl('C03', 'c03_stop_lost_headers_2', 'headers', 2, ('thorough',))
